@@ -8,7 +8,7 @@ IMPORTS = ['C03/basis_product', 'C03/two_codings_agree', 'C03/rs_matrix_den', 'C
 TRUSTED = ['the formal (dual-number) derivative of a polynomial expression is its analytic derivative (textbook differentiation rules)',
            'inspect.getsource-based output detection of @simple (generated functions are written to a real module file)']
 ASSUMPTIONS = ['the Coq model covers inputs, numbers, nested shifts, .ss, unary minus, + - *, division (all scalar/accumulator combinations) and positive integer powers; '
-               'real exponents, number ** expr, log/exp and applied functions are checked by the oracle (central differences of impulse_nonlinear) only',
+               'real exponents, number ** expr and expr ** expr are checked by the oracle (central differences of impulse_nonlinear) only; applied functions are in the model with the derivative the implementation supplies (1/x for np.log, the symmetric difference quotient otherwise)',
                'coefficients are exact integers in the correspondence; the 1e-14 threshold is modelled as "== 0"',
                'finite-path window theorem (eval_td with horizon T vs the infinite semantics) is not proved; the oracle compares inside the window']
 HEADER = ('From Coq Require Import ZArith List.\nFrom SSJ Require Import Model.Sparse Model.SimpleBlk.\nImport ListNotations.\nOpen Scope Z_scope.\n')
@@ -355,6 +355,130 @@ def run_block_impl(blk, b):
     return ssvals, jac, imp
 
 
+APPLY_FUNS = {'quad': ('def quad(x, a=0.5):\n    return a * x * x + x\n', lambda kw: f'(fun x : Qc => Qcplus (Qcmult (Qcmult {qfq(kw.get("a", 0.5))} x) x) x)'),
+              'cubic': ('def cubic(x, b=1.0, c=0.25):\n    return b * x * x * x - c * x\n', lambda kw: f'(fun x : Qc => Qcminus (Qcmult (Qcmult (Qcmult {qfq(kw.get("b", 1.0))} x) x) x) (Qcmult {qfq(kw.get("c", 0.25))} x))'),
+              'affine': ('def affine(x, s=2.0):\n    return s * x + 1.5\n', lambda kw: f'(fun x : Qc => Qcplus (Qcmult {qfq(kw.get("s", 2.0))} x) {qfq(1.5)})')}
+
+
+def qfq(v):
+    from fractions import Fraction
+    fr = Fraction(float(v))
+    return f'(qn {C.zs(fr.numerator)} {fr.denominator}%positive)'
+
+
+def py_app(e):
+    if e[0] == 'app':
+        kw = ', '.join(f'{k}={v}' for k, v in e[2].items())
+        return f'({py_app(e[3])}).apply({e[1]}' + (f', {kw}' if kw else '') + ')'
+    if e[0] in ('add', 'sub', 'mul'):
+        return f'({py_app(e[1])} {dict(add="+", sub="-", mul="*")[e[0]]} {py_app(e[2])})'
+    if e[0] == 'shift':
+        return f'{py_app(e[2])}({e[1]})' if e[2][0] != 'var' else f'x{e[2][1]}({e[1]})'
+    return py(e)
+
+
+def coq_app(e, h):
+    if e[0] == 'app':
+        f = APPLY_FUNS[e[1]][1](e[2])
+        return f'(EApp {f} (symq {qfq(h)} {f}) {coq_app(e[3], h)})'
+    if e[0] in ('add', 'sub', 'mul'):
+        return f'({dict(add="EAdd", sub="ESub", mul="EMul")[e[0]]} {coq_app(e[1], h)} {coq_app(e[2], h)})'
+    if e[0] == 'shift':
+        return f'(EShift {C.zs(e[1])} {coq_app(e[2], h)})'
+    return coq_q(e)
+
+
+def gen_app_expr(rng, nin, depth):
+    """an expression of the ring fragment over dyadic data in which applied functions (some with keyword arguments) occur, possibly nested and shifted"""
+    v = lambda: ('var', rng.randrange(nin))
+    if depth == 0:
+        return v()
+    op = rng.choice(['app', 'app', 'add', 'mul', 'shift', 'sub'])
+    if op == 'app':
+        name = rng.choice(list(APPLY_FUNS))
+        kw = {} if rng.random() < 0.4 else {dict(quad='a', cubic=rng.choice(['b', 'c']), affine='s')[name]: rng.choice([2.0, -0.5, 1.5, 0.25])}
+        inner = gen_app_expr(rng, nin, depth - 1)
+        return ('app', name, kw, inner if has_var(inner) else ('add', inner, v()))
+    if op in ('add', 'sub', 'mul'):
+        a = gen_app_expr(rng, nin, depth - 1)
+        return (op, a if has_var(a) else v(), gen_app_expr(rng, nin, depth - 1))
+    inner = gen_app_expr(rng, nin, depth - 1)
+    return ('shift', rng.choice([-2, -1, 1, 2]), inner if inner[0] != 'num' else v())
+
+
+def correspondence_apply(ctx, n):
+    """@simple programs with applied scalar functions (.apply(f) and .apply(f, **kwargs), nested, shifted): steady state and nonlinear paths (1e-12) and Jacobian elements
+    (same basis elements; coefficients to 1e-8: the implementation's symmetric quotient with h = 1e-5 loses about eps/h of its digits) vs the rational model with EApp"""
+    from fractions import Fraction
+    rng = ctx['rng']
+    h = 1e-5
+    blocks = []
+    for _ in range(n):
+        nin = rng.randint(1, 2)
+        T = rng.randint(4, 6)
+        outs = [gen_app_expr(rng, nin, rng.randint(1, 3)) for _ in range(rng.randint(1, 2))]
+        outs = [e if has_var(e) else ('add', e, ('var', 0)) for e in outs]
+        ss = [rng.choice([0.5, 1.0, 1.5, -0.75, 0.25]) for _ in range(nin)]
+        shocked = [i for i in range(nin) if rng.random() < 0.7] or [0]
+        levels = {i: [rng.choice([0.5, 1.0, -0.5, 0.75, 1.25]) for _ in range(T)] for i in shocked}
+        blocks.append(dict(nin=nin, outs=outs, T=T, ss=ss, ssi=list(ss), use_ssi=False, shocked=shocked, levels=levels, paths={i: [v - ss[i] for v in levels[i]] for i in shocked}))
+    d = os.path.join(C.WORK, 'C02')
+    os.makedirs(d, exist_ok=True)
+    name = f'c02_app_{ctx["seed"]}_{ctx["tier"]}'
+    with open(os.path.join(d, name + '.py'), 'w') as f:
+        f.write('import numpy as np\nfrom sequence_jacobian import simple\n\n' + '\n'.join(src for src, _ in APPLY_FUNS.values()) + '\n')
+        for k, b in enumerate(blocks):
+            f.write(f'@simple\ndef blk{k}({", ".join(f"x{i}" for i in range(b["nin"]))}):\n')
+            for j, e in enumerate(b['outs']):
+                f.write(f'    y{j} = {py_app(e)}\n')
+            f.write('    return ' + ', '.join(f'y{j}' for j in range(len(b['outs']))) + '\n\n')
+    if d not in sys.path:
+        sys.path.insert(0, d)
+    importlib.invalidate_caches()
+    sys.modules.pop(name, None)
+    mod = importlib.import_module(name)
+    qf = lambda v: qfq(v)
+    exprs = []
+    for b in blocks:
+        paths = C.coq_list([b['levels'].get(i, []) for i in range(b['nin'])], lambda p: C.coq_list(p, qf))
+        exprs.append(f'run_block_q {b["nin"]}%nat {C.coq_list(b["ss"], qf)} {C.coq_list(b["ssi"], qf)} {paths} {b["T"]} ' + C.coq_list(b['outs'], lambda e: coq_app(e, h)))
+    hdr = 'From Coq Require Import ZArith QArith Qcanon List.\nFrom SSJ Require Import Model.Sparse Model.SimpleBlk Model.SimpleBlkQ.\nImport ListNotations.\nOpen Scope Z_scope.\n'
+    vals, logs = C.eval_in_coq('C02', hdr, exprs, chunk=max(1, n // 16 + 1), tag='app')
+    dis = []
+    F = lambda x: float(Fraction(int(x[0]), int(x[1])))
+    unopt = lambda e: None if e is None else (e[1] if isinstance(e, tuple) and len(e) == 2 and e[0] == 'Some' else e)
+    for k, (b, vm) in enumerate(zip(blocks, vals)):
+        if vm is None:
+            continue
+        try:
+            ssv, jac, imp = run_block_impl(getattr(mod, f'blk{k}'), b)
+            bad = []
+            m_ss = [F(x) for x in vm[0]]
+            if any(abs(a_ - b_) > 1e-12 * max(1, abs(b_)) for a_, b_ in zip(ssv, m_ss)):
+                bad.append('steady state')
+            for j, row in enumerate(vm[1]):
+                for i, e in enumerate(row):
+                    me, ie = unopt(e), jac[j][i]
+                    if (me is None) != (ie is None):
+                        bad.append(f'presence of entry y{j},x{i}')
+                    elif me is not None:
+                        md = {(int(el[0]), int(el[1])): F(el[2]) for el in me}
+                        idd = {(int(el[0]), int(el[1])): el[2] for el in ie}
+                        if set(md) != set(idd) or any(abs(md[q] - idd[q]) > 1e-8 * max(1.0, abs(md[q])) for q in md):
+                            bad.append(f'entry y{j},x{i}')
+            if imp is not None:
+                m_imp = [[F(x) for x in row] for row in vm[2]]
+                if any(abs((v + s_) - mv) > 1e-12 * max(1, abs(mv)) for row, mrow, s_ in zip(imp, m_imp, ssv) for v, mv in zip(row, mrow)):
+                    bad.append('nonlinear path')
+        except Exception as ex:
+            bad = [f'raised {type(ex).__name__}: {ex}']
+        if bad:
+            dis.append(dict(what='SimpleBlock with applied functions: steady_state/jacobian/impulse_nonlinear vs the rational model', case=dict(b, src=[py_app(e) for e in b['outs']], differing=bad[:5])))
+    for l in logs:
+        dis.append(dict(what='coq evaluation failed', log=l))
+    return blocks, dis
+
+
 def correspondence(ctx):
     rng = ctx['rng']
     n = 300 if ctx['tier'] == 'quick' else 3000
@@ -422,12 +546,15 @@ def correspondence(ctx):
             got, ok, model = f'raised {type(ex).__name__}: {ex}', False, None
         if not ok:
             dis.append(dict(what='SimpleBlock with division/powers: steady_state/jacobian/impulse_nonlinear vs the rational model', case=dict(b, src=[py(e) for e in b['outs']]), impl=got, model=model))
-    blocks = blocks + qblocks
+    ablocks, adis = correspondence_apply(ctx, 60 if ctx['tier'] == 'quick' else 600)
+    dis += adis
+    stats['with_applied_functions'] = len(ablocks)
+    blocks = blocks + qblocks + ablocks
     logs = logs + qlogs
     for l in logs:
         dis.append(dict(what='coq evaluation failed', log=l))
     return dict(evaluations=len(blocks), distinct_nontrivial=len(distinct),
-                rule='grammar-generated @simple programs with division (expr/expr, number/expr, expr/number) and integer powers over dyadic data, divisors power-of-two valued '
+                rule='grammar-generated @simple programs with applied scalar functions (.apply(f), .apply(f, **kwargs) with polynomial f, nested and shifted): steady state and nonlinear paths (1e-12), Jacobian basis elements exactly and coefficients to 1e-8 vs the rational model with EApp and the symmetric quotient (h = 1e-5); grammar-generated @simple programs with division (expr/expr, number/expr, expr/number) and integer powers over dyadic data, divisors power-of-two valued '
                      'so that float arithmetic is exact, compared exactly with the model over the rationals; grammar-generated @simple programs (ring fragment, depth<=4, shifts |k|<=3 incl. nested, .ss, python int/float literals, '
                      '1-3 inputs of which a random subset is shocked with integer paths, 35% with a distinct initial steady state, T 4..9): '
                      'steady state, Jacobian elements and nonlinear paths compared exactly with the model',
